@@ -24,6 +24,8 @@ TStep ==
           \/ e.cmd = "mkdir" /\ Mkdir(e.arg.path)
           \/ e.cmd = "extchdir" /\ ExternalChdirFix(e.arg.path)
           \/ e.cmd = "withcd" /\ WithCd(e.arg.path)
+          \/ e.cmd = "fixcwd" /\ FixCwd
+          \/ e.cmd = "setconf" /\ Configure(e.conf)
        /\ pcwd' = e.obs.pcwd /\ pwd' = e.obs.pwd /\ oldpwd' = e.obs.oldpwd /\ stack' = e.obs.stack
        /\ (IsDirCmd' => res'.failed = e.obs.failed)
        /\ (e.cmd = "dirs" /\ ~e.obs.failed => res'.out = e.obs.out)
